@@ -43,6 +43,7 @@ def main():
         descs.append(dict(point=tag, size=size, accepted=accepted, **d))
 
     tmpd = tempfile.mkdtemp(prefix="lsf_c16_")
+    typed = 0
     F19 = ("F19", lambda d: d.get("terminal") and d["size"] > L and d["accepted"])
 
     # ------------------------------------------------ API: input, callback output, definition, names
@@ -65,6 +66,22 @@ def main():
                 st, b = api.post("SendTaskSuccess", {"taskToken": "bm90LWEtdG9rZW4=", "output": jstr(n)})
                 t = b.get("__type") if isinstance(b, dict) else None
                 record("aio_sendtasksuccess", n, t != "InvalidOutput", response=t or st)
+        # an input / output that is not a JSON text at all (a number, a boolean, an array, an object) is refused with the documented
+        # validation error, never answered with an internal error
+        if kind == "aio":
+            api.post("CreateStateMachine", {"name": "mx", "definition": impl.SIMPLE_DEF, "roleArn": impl.ROLE, "type": "EXPRESS"})
+            smx = sm[:-1] + "mx"
+        for bad in (5, 1.5, True, ["a"], {"a": 1}):
+            calls = [("StartExecution", {"stateMachineArn": sm, "input": bad}, "InvalidExecutionInput")]
+            if kind == "aio":
+                calls += [("StartSyncExecution", {"stateMachineArn": smx, "input": bad}, "InvalidExecutionInput"),
+                          ("SendTaskSuccess", {"taskToken": "bm90LWEtdG9rZW4=", "output": bad}, "InvalidOutput")]
+            for action, prm, want in calls:
+                st, b = api.post(action, prm)
+                typed += 1
+                if st != 400 or not (isinstance(b, dict) and b.get("__type") == want):
+                    ck.violation("%s answered %s %r for an %s that is not a JSON text (%r); %s expected" % (action, st, str(b)[:200], "input" if "input" in prm else "output", bad, want),
+                                 {"point": kind + "_" + action, "value": bad, "status": st})
         # definitions: valid ASL padded with blanks to the exact size
         for action in ("CreateStateMachine", "UpdateStateMachine"):
             for i, n in enumerate([len(impl.SIMPLE_DEF), LD - 2, LD - 1, LD, LD + 1, LD + 2, 0] + ([LD + 5000, LD // 2] if thorough else [])):
